@@ -34,7 +34,7 @@ checks = {
    text='Same simulation with failing hooks (critical or not, several at once); oracles: critical failure at before_/leave_ cancels (state kept, nothing later runs, no task transition), at enter_/after_ is reported with the destination kept, non-critical failures change nothing, the error names the failure, simultaneous failures do not corrupt the core (R4 write windows detect concurrent map writes).',
    note='One real Environment with an injected task-transition body (verif hook) and a probe plugin registered through the public integration API; callers follow the API rule (GO_ERROR after a failed request, forced ERROR if refused) as core/server.go does; teardown and the RPC layer are outside this harness; hook tasks are not generated (calls only).'),
  "C10": dict(harness="henv", design="§6 C10",
-   text='Same simulation biased towards START/STOP/GO_ERROR sequences; probes snapshot run_number and the four run timestamps; oracles: number absent before and present from the non-negative before_START_ACTIVITY hooks to the end of the stopping transition, constant during the run, timestamps set at most once and ordered, nothing of the previous run visible at the start of the next, end timestamps set however the run ended. A quarter of the workers run the whole-core simulation instead (real task-transition bodies and teardown, hook tasks): the published run events must show exactly two end-of-run events per run however it ends.',
+   text='Same simulation biased towards START/STOP/GO_ERROR sequences; probes snapshot run_number and the four run timestamps; oracles: number absent before and present from the non-negative before_START_ACTIVITY hooks to the end of the stopping transition, constant during the run, timestamps set at most once and ordered, nothing of the previous run visible at the start of the next, end timestamps set however the run ended and unchanged between two runs (run number allocation made to fail at a START - Consul down, CAS refused - begins no run). A quarter of the workers run the whole-core simulation instead (real task-transition bodies and teardown, hook tasks): the published run events must show exactly two end-of-run events per run however it ends.',
    note='One real Environment with an injected task-transition body (verif hook) and a probe plugin registered through the public integration API; callers follow the API rule (GO_ERROR after a failed request, forced ERROR if refused) as core/server.go does; teardown and the RPC layer are outside this harness; hook tasks are not generated (calls only).'),
  "C02": dict(harness="hcore", design="§6 C02",
    text="Whole-core simulation (one OS process per run): the real RPC methods, environment manager and FSM, task manager, scheduler handlers, command queue, workflow loading, Consul client and mesos-go controller against simmesos/simconsul; per task and per transition an outcome is drawn (ok, error reply staying / going to ERROR, silent, undeliverable, dies; for DEPLOY: starts, late, fails, never). Oracle: each API request succeeds iff every critical active task acknowledged, destination never reported and error returned otherwise, environment in ERROR afterwards, every request returns; crashes of the core are violations.",
